@@ -64,7 +64,7 @@ def candidates(p):
         yield q
     cb = stmt.get("callback")
     if cb is not None:
-        if p.get("engine") not in ("c20d", "c20f") and not cb.get("stop_at"):
+        if p.get("engine") not in ("c20d", "c20f", "c20g") and not cb.get("stop_at"):
             q = copy.deepcopy(p)
             q["stmt"]["callback"] = None
             yield q
@@ -83,6 +83,10 @@ def candidates(p):
             q["stmt"]["obj"] = {"fam": "quad", "c": [0.0] * stmt["n"], "d": [1.0] * stmt["n"], "e": 0.0,
                                 "ret": "float", "args": None}
             q["stmt"].pop("twin", None)
+            yield q
+        if obj.get("mutates"):
+            q = copy.deepcopy(p)
+            q["stmt"]["obj"]["mutates"] = False
             yield q
         for key, val in (("noise", 0.0), ("ret", "float"), ("args", None)):
             if obj.get(key) not in (val, None) or (key == "args" and obj.get("args") is not None):
@@ -120,7 +124,7 @@ def candidates(p):
                 q = copy.deepcopy(p)
                 q["stmt"]["options"]["maxfev"] = new
                 yield q
-    if p.get("engine") == "c20d" and p.get("k", 1) > 1:
+    if p.get("engine") in ("c20d", "c20g") and p.get("k", 1) > 1:
         for new in sorted(set([1, 2, p["k"] // 2, p["k"] - 1])):
             if 1 <= new < p["k"]:
                 q = copy.deepcopy(p)
@@ -130,7 +134,7 @@ def candidates(p):
 
 def minimise(payload):
     expect = payload["expect"]
-    if payload.get("engine") not in ("world", "c20d", "c20f"):
+    if payload.get("engine") not in ("world", "c20d", "c20f", "c20g"):
         from . import engines_ext
         fn = getattr(engines_ext, "minimise", None)
         return fn(payload) if fn else payload
